@@ -14,9 +14,10 @@ while true; do
       pid=$(echo "$tag" | cut -c1-3); x=$(echo "$tag" | cut -c4-)
       name="$pid-$x$k"
       [ -e "/verif/seeded/$name/meta.json" ] && continue
-      mkdir "/tmp/lead/lock.$name" 2>/dev/null || continue   # another confirm loop has it
+      mkdir "/tmp/lead/lock.$tag" 2>/dev/null || continue    # one confirm at a time per worktree
       ls /verif/seeded/ | grep -q "^$pid-.*-from-$x$k\$" && continue
       echo "$(date +%H:%M) confirm $name"; JOBS=8 /verif/tools/confirm_seed.sh "$d" "$k" "$pid" "$name" 2>&1 | grep -v "^WARNING" | tail -2
+      rmdir "/tmp/lead/lock.$tag"
       did=1
     done
   else
